@@ -42,10 +42,10 @@ PROPS = {
              'roll-over syncs the old file first (ROLL1); nothing is unlinked unless everything written so far has been flushed and fsynced (GC2).',
              'OS / disk semantics of fdatasync; OnDelay timing.',
              'MIR must-pass-through with constant specialisation (A-CONST); finite-table extraction', 'DESIGN §5.5, §5.2 GC2, §5.9 C03'),
-    'C04': P('removing records always moves start_position past the truncation point (PAST4); replay keeps a queue only at exactly the recorded position (RP2); no in-memory update after the GC pass (GC10); an unlogged in-memory update is impossible (LOG1); GC position pass exists, records next_position of exactly the empty queues, durably, pinned (GC1, GC2w, GC3); an append below the next position cannot reach a push or a log site (PAST1, PAST2); the logged/applied position is the supplied one or the queue\'s next position (PAST3); replay applies the entry\'s own position (RP1). the value stored into start_position by a truncation is the truncation point + 1 on every path (PAST4 affine form); a queue rebuilt for a recorded position has every integer field next_position() reads initialised from that position (MQ3); the Truncate / DeleteQueue replay arms always apply their operation (RP5). the position arithmetic of a queue where readable as affine forms: next = last + 1 | start, last = next - 1, the pushed meta carries the target position and the buffer length before the payload (MQ4).',
+    'C04': P('removing records always moves start_position past the truncation point (PAST4); replay keeps a queue only at exactly the recorded position (RP2); no in-memory update after the GC pass (GC10); an unlogged in-memory update is impossible (LOG1); GC position pass exists, records next_position of exactly the empty queues, durably, pinned (GC1, GC2w, GC3); an append below the next position cannot reach a push or a log site (PAST1, PAST2); the logged/applied position is the supplied one or the queue\'s next position (PAST3); replay applies the entry\'s own position (RP1). the value stored into start_position by a truncation is the truncation point + 1 on every path (PAST4 affine form); a queue rebuilt for a recorded position has every integer field next_position() reads initialised from that position (MQ3); the Truncate / DeleteQueue replay arms always apply their operation (RP5). the position arithmetic of a queue where readable as affine forms: next = last + 1 | start, last = next - 1, the pushed meta carries the target position and the buffer length before the payload (MQ4). a mutating call answers Ok without its WAL entry only under the two specified no-op gates (QX5).',
              'the arithmetic of next_position / truncate_head.',
              'MIR guard-dominates-use and flow rules', 'DESIGN §5.8 PAST/RP, §5.2'),
-    'C06': P('no owner of file handles is live across the GC pass in its caller (GC11); minted file numbers are tracked (GC12); file number replaced together with the handle at roll-over (ROLL2); tracker removal is guarded (GC4), unlink pairs with removal (GC5), trigger and action agree (GC6), truncate/delete_queue/open reach the GC pass on every success path (GC7), handles share one count (GC8), no new long-lived holder or leak primitive (GC9), size() and set_len use the same FILE_NUM_BYTES (DU1). a re-used next file is sized to full length (SZ2). a failed creation does not leave a phantom file in the tracker (GC13).',
+    'C06': P('no owner of file handles is live across the GC pass in its caller (GC11); minted file numbers are tracked (GC12); file number replaced together with the handle at roll-over (ROLL2); tracker removal is guarded (GC4), unlink pairs with removal (GC5), trigger and action agree (GC6), truncate/delete_queue/open reach the GC pass on every success path (GC7), handles share one count (GC8), no new long-lived holder or leak primitive (GC9), size() and set_len use the same FILE_NUM_BYTES (DU1). a re-used next file is sized to full length (SZ2). a failed creation does not leave a phantom file in the tracker (GC13). no file handle other than the current-file guard is alive across the unlink loop (GC3b).',
              'which file a record is attributed to at every alignment (DESIGN §6.4); the numeric equality of disk_used_bytes.',
              'MIR must-pass-through, sibling agreement, type/ADT inventories', 'DESIGN §5.2, §5.9 C06'),
     'C07': P('every encoder input / header field / frame payload reaches the output (CD8); strict `>` in the frame-fits and file-full tests (CD9); `remaining - HEADER_LEN` only on the `>=` edge (CD2b); the frame loop progresses and ends exactly when nothing remains (WR1); a returned frame was consumed entirely (FR5b); an exceeding write only through the roll-over (ROLL3); reader position only moves under a successful read (NB1); constants are mutually consistent (CD1); writer and reader use the same `remaining < HEADER_LEN` predicate (CD2); header / entry / batch layouts agree field by field (CD3, CD5, CD6); frame-type and record-type tables compose to the identity (CD4); narrowing casts in encoders are guarded (CD7). the writer resumes exactly at the reader\'s cursor (LOG5 cursor-exact); the end of the log is Ok(false) in every reader state (REC8).',
@@ -72,7 +72,7 @@ PROPS = {
     'C14': P('the policy state is read only in the policy-consult body and built only in open (NI1, NI2); switches on policy-typed values and clock reads are confined to persist_policy.rs, the consult body and the persist implementation (NI3); persist writes no logical state and has no WAL/memory effect (NI4); the consult body returns io::Result<()> consumed by `?` (NI5); buffered bytes reach the OS at drop (NI6); no unsafe / interior mutability in logical state (NI7).',
              'behaviour under I/O faults (an I/O error is the one thing persist can turn into a different return value).',
              'field / control confinement + effect purity (non-interference argument)', 'DESIGN §5.8 NI'),
-    'C15': P('every byte count handed to the one write primitive flows to the frame writer\'s result (BY1), every frame count to the entry count (BY2), every entry and GC count to the wal_bytes_written field of the outcome (BY3); a constant 0 is returned only where no write can have happened (BY4); single choke point using write_all (W1); offset bookkeeping pairs with writes (BY6). no effect site reaches a rejecting exit, so no bytes are written and reported nowhere (QX1, QX3).',
+    'C15': P('every byte count handed to the one write primitive flows to the frame writer\'s result (BY1), every frame count to the entry count (BY2), every entry and GC count to the wal_bytes_written field of the outcome (BY3); a constant 0 is returned only where no write can have happened (BY4); single choke point using write_all (W1); offset bookkeeping pairs with writes (BY6). no effect site reaches a rejecting exit, so no bytes are written and reported nowhere (QX1, QX3). a byte counter is never advanced by a value that already contains it (BY8).',
              'that the flows add up to EQUALITY (no double counting / scaling).',
              'must-flow (def-use closure) to field-sensitive sinks; no-reach', 'DESIGN §5.7 BYTES'),
     'C16': P('meta and payload bytes are stored together and dropped together (MA5); size() and capacity() are built from corresponding terms (MA1 term sets); used/allocated are built from paired len/capacity terms of the same containers (MA1), the used side contains no capacity term and includes payload and key lengths (MA2), emptying releases the ring buffer (MA3), the pair is mapped to the right fields (MA4). every move of start_position in truncate_head goes with the eviction of the metas in front of it (MA5 every-move-evicts). the payload buffer reports the len / capacity of its container, nothing added (MA6).',
